@@ -77,6 +77,18 @@ pub fn gen(ch: &mut Chooser) -> Case {
 /// names on the backend's own list of words it writes in backticks (Swift is the one backend with such a list for types)
 const SWIFT_KEYWORD_NAMES: [&str; 6] = ["Any", "Self", "default", "protocol", "in", "self"];
 
+/// names that end in the Pascal form of a configured Go acronym (the all-knobs configuration has ID and URL)
+const GO_ACRONYM_NAMES: [&str; 3] = ["AccountId", "ApiUrl", "IdOfUrl"];
+
+fn gen_acronym_named(ch: &mut Chooser) -> Case {
+    let renamed_to = *ch.pick("target_emitted_name", &GO_ACRONYM_NAMES);
+    let kind = *ch.pick("target_kind", &TARGET_KINDS);
+    let position = *ch.pick("position", &POSITIONS);
+    let referrer_renamed = ch.flag("referrer_renamed");
+    let param_carrier = if position.starts_with("param-") && position != "param-alias" && !position.starts_with("param-and") { *ch.pick("param_carrier", &PARAM_CARRIERS) } else { "option" };
+    Case { kind, renamed: true, position, referrer_renamed, lang: Lang::Go, prefixed: true, param_carrier, variant_ident: "S", renamed_to }
+}
+
 fn gen_keyword_named(ch: &mut Chooser) -> Case {
     let renamed_to = *ch.pick("target_emitted_name", &SWIFT_KEYWORD_NAMES);
     let kind = *ch.pick("target_kind", &TARGET_KINDS);
@@ -401,7 +413,9 @@ pub fn check_case(c: &Case, choices: &[u32], acc: &mut Acc) {
     for it in &file.items {
         acc.judgements += 1;
         let want = refmodel::type_name(c.lang, &cfg, it);
-        if !defined.contains(want.as_str()) {
+        // Go with configured acronyms upper-cases them inside names (AccountId -> AccountID): compared without case there
+        let acronyms = c.lang == Lang::Go && !cfg.go_uppercase_acronyms.is_empty();
+        if !(defined.contains(want.as_str()) || (acronyms && defined.iter().any(|d| d.eq_ignore_ascii_case(&want)))) {
             let role = if it.name == "Tgt" { format!("target:{}", c.kind) } else if it.name == "Referrer" { format!("referrer:{}", c.position) } else { "holder".into() };
             let mut d = base.clone();
             d["expected_definition"] = json!(want);
@@ -579,6 +593,26 @@ pub fn run(args: &[String]) -> i32 {
             report::threads(),
             u64::MAX,
         );
+        let (accs2, stats2) = explore(
+            |ch| {
+                gen_acronym_named(ch);
+            },
+            |ch, acc: &mut Acc| {
+                let c = gen_acronym_named(ch);
+                // a renamed unit enum is declared under its Rust name by the Go backend: the known finding
+                // KF-C09-go-unit-enum-original-name, judged (and listed) in the main family
+                if c.kind == "unit-enum" {
+                    acc.out_of_scope += 1;
+                    return;
+                }
+                check_case(&c, &ch.choices(), acc);
+            },
+            Mode::Product,
+            2,
+            report::threads(),
+            u64::MAX,
+        );
+        merge(&mut rep, "go_acronym_named_targets", accs2, &stats2, json!({"target_emitted_names": GO_ACRONYM_NAMES, "configured_acronyms": ["ID", "URL"], "target_kinds": TARGET_KINDS, "positions": POSITIONS, "generic_parameter_carriers": PARAM_CARRIERS, "language": "go"}));
         merge(&mut rep, "swift_keyword_named_targets", accs, &stats, json!({"target_emitted_names": SWIFT_KEYWORD_NAMES, "target_kinds": TARGET_KINDS, "positions": POSITIONS, "referrer_renamed": [false, true], "language": "swift", "configs": 2}));
     }
     merge(&mut rep, "references", accs, &stats, json!({"target_kinds": TARGET_KINDS, "target_renamed": [false, true], "positions": POSITIONS, "generic_parameter_carriers": PARAM_CARRIERS, "struct_variant_identifiers": VARIANT_IDENTS, "referrer_renamed": [false, true], "languages": 6, "configs": 2}));
